@@ -1015,6 +1015,36 @@ def r6(prog, rep, anchors=True):
             rep.fail('C16.R6', kk, where(u), 'the unlink of the output file additionally depends on %s' % ', '.join(sorted({ir.loc_str(l) for l in other})))
         else:
             rep.ok('C16.R6', 'flexend: unlink(env.outfilename)@%s controlled by exit_status != 0 && outfile_created (and the ferror/fclose chain)' % u.line)
+    # no error path of flexend() re-enters flexend() before the clean-up: the recursion guard exits at once, the partial output stays
+    if un:
+        u = un[0]
+        guard = None
+        for br, t in ucfg.control_deps_closure(u.blk):
+            ll = {l for _, l in loads_in_slice(fe, br.ops[0], res)} if br.ops else set()
+            if ('local', 'exit_status.addr') in ll: guard = br
+        reent = []
+        cg = prog.callgraph() if hasattr(prog, 'callgraph') else None
+        def reaches_flexend(name, seen=None):
+            seen = seen or set()
+            if name == 'flexend': return True
+            if name in seen: return False
+            seen.add(name)
+            g = prog.fn(name)
+            if g is None or not g.blocks: return False
+            return any(c.op == 'call' and isinstance(c.callee, str) and reaches_flexend(c.callee, seen) for c in g.ins)
+        if guard is not None:
+            n += 1
+            for c in fe.ins:
+                if c.op != 'call' or not isinstance(c.callee, str) or not reaches_flexend(c.callee): continue
+                before = guard in ucfg.reach(c) or any(y.blk is guard.blk for y in ucfg.reach(c))
+                inside = any(br is guard for br, t in ucfg.control_deps_closure(c.blk))
+                if before and not inside: reent.append(c)
+            if reent:
+                rep.fail('C16.R6', key('C16.R6', fe, 'reenters-before-cleanup'), where(reent[0]), 'flexend() reports an error through %s() before the clean-up of the output file: %s() calls flexend() again, '
+                         'whose recursion guard exits at once, so flex exits non-zero and leaves the partly written output file behind' % (reent[0].callee, reent[0].callee),
+                         replay_input='%option yyclass="Foo" without %option c++: exit 1, lex.yy.c stays')
+            else:
+                rep.ok('C16.R6', 'flexend: no call that can re-enter flexend() precedes the removal of the partial output')
     # outfile_created is set where the file is created
     co = prog.fn('check_options')
     if co is not None:
